@@ -277,6 +277,64 @@ func c10L2(r *Run) {
 		r.Unk("C10.L2", "kmipclient.conn.send/after-handoff", sf.Pos(), "the wait-for-outcome select not found")
 		return
 	}
+	// after the hand-off, send reports what the write loop reported, nothing else: a return dominated by the inner
+	// select yields the received outcome, nil, the connection's own cause (teardown already happened), or follows terminate
+	{
+		badRet := token.NoPos
+		allInstrs(sf, func(in ssa.Instruction) {
+			ret, ok := in.(*ssa.Return)
+			if !ok || len(ret.Results) != 1 || !dominatesInstr(inner, ret) {
+				return
+			}
+			var okVal func(v ssa.Value, d int) bool
+			okVal = func(v ssa.Value, d int) bool {
+				if d > 5 {
+					return false
+				}
+				switch x := v.(type) {
+				case *ssa.Const:
+					return x.IsNil()
+				case *ssa.Extract:
+					return x.Tuple == ssa.Value(inner) // the value received from the outcome channel
+				case *ssa.Phi:
+					for _, e := range x.Edges {
+						if !okVal(e, d+1) {
+							return false
+						}
+					}
+					return true
+				case *ssa.Call:
+					id := callID(&x.Call)
+					// context.Cause(c.ctx): the connection's own context, i.e. it has already been torn down
+					if id.is("context", "", "Cause") {
+						if ld, ok := x.Call.Args[0].(*ssa.UnOp); ok {
+							if fa, ok := ld.X.(*ssa.FieldAddr); ok && typeName(fa.X.Type()) == "conn" {
+								return true
+							}
+						}
+					}
+				}
+				return false
+			}
+			if okVal(ret.Results[0], 0) {
+				return
+			}
+			torn := false
+			allInstrs(sf, func(in2 ssa.Instruction) {
+				if c := callOf(in2); c != nil && isTeardownCall(c) && dominatesInstr(in2, ret) && dominatesInstr(inner, in2) {
+					torn = true
+				}
+			})
+			if !torn {
+				badRet = ret.Pos()
+			}
+		})
+		if badRet.IsValid() {
+			r.Bad("C10.L2", "kmipclient.conn.send/outcome-only", badRet, "after the request has been handed to the write loop, send can return an error of its own (not the write loop's outcome) without tearing the connection down: the request is on the wire, the exchange is abandoned with the connection still in use, and the late response goes to the next call")
+		} else {
+			r.OK("C10.L2", "kmipclient.conn.send/outcome-only", inner.Pos(), "after the hand-off send returns only the write loop's outcome, nil, or an error that follows a teardown")
+		}
+	}
 	okAll, n := true, 0
 	for i, st := range inner.States {
 		c, ok := st.Chan.(*ssa.Call)
